@@ -697,6 +697,23 @@ def reused_encryption_object(ctx, rng):
                                   f"{'can' if old.ok else 'cannot either'}", case)
             elif t2.etype not in ("InvalidKeyIdError",):
                 ctx.open(f"second-encryption-of-an-object-refused:{t2.etype}")
+            if alg.startswith("ECDH"):
+                # ... and a key set whose keys are on another curve: nothing of the earlier key agreement (its ephemeral key) is carried over
+                set_d = [{**gen.new_ec("P-521"), "kid": k} for k in kids]
+                t4 = call(j.jwe.encrypt_json, obj, pub(set_d), algorithms=allow)
+                ctx.count("produce_ops")
+                if not t4.ok:
+                    ctx.violation(f"reused-encryption-object:other-curve-refused:{t4.etype}", f"encrypt_json(obj, D) on an object encrypted before with P-256 / P-384 keys ({alg}, {form}), D holding "
+                                  f"P-521 keys under the same kids: {t4.exc!r}", case)
+                else:
+                    mine = call(j.jwe.decrypt_json, copy.deepcopy(t4.value), j.KeySet([j.key(x) for x in set_d]), algorithms=allow)
+                    if not mine.ok or mine.value.plaintext != pt:
+                        ctx.violation("reused-encryption-object:key-of-an-earlier-key-set-used", f"token made for the P-521 key set D on a reused object ({alg}, {form}) does not decrypt with D: {mine.exc!r}", case)
+                    e1 = (t1.value.get("header") if form == "flattened" else t1.value["recipients"][0].get("header") or {}).get("epk")
+                    e2 = (t2.value.get("header") if form == "flattened" else t2.value["recipients"][0].get("header") or {}).get("epk") if t2.ok else None
+                    if e1 is not None and e1 == e2:
+                        ctx.violation("reused-encryption-object:ephemeral-key-of-the-earlier-call", f"two encrypt_json calls on one object with two key sets ({alg}, {form}) used the same "
+                                      f"ephemeral key {e1.get('x')!r}", case)
             t3 = call(j.jwe.encrypt_json, obj, pub(set_c), algorithms=allow)
             if t3.ok:
                 mine = call(j.jwe.decrypt_json, copy.deepcopy(t3.value), j.KeySet([j.key(x) for x in set_c]), algorithms=allow)
